@@ -1285,7 +1285,11 @@ pub fn run_t1(profile: &T1Profile, tape: Tape, opts: &T1Opts) -> RunOut {
         if let (Some((_, code, _)), Some(Err(e))) = (abrupt.first(), &cres[0]) {
             // the client learns the server's code, and that it came from the peer's GOAWAY
             let io_first = e.is_io;
-            if !io_first && (e.reason != Some(*code) || !e.is_remote || !e.is_go_away) && *code != 0 {
+            // (the library may have failed the connection with its own code before the
+            // application's call took effect: what counts is what the server put on the wire)
+            let sent: Vec<u32> = srv.goaway_out.iter().map(|g| g.1).filter(|c| *c != 0).collect();
+            let reported_ok = e.reason.map(|r| sent.contains(&r)).unwrap_or(false) && e.is_remote && e.is_go_away;
+            if !io_first && !reported_ok && sent.contains(code) && *code != 0 {
                 violations.push(Violation::new("C15", "client-result-does-not-report-peer-goaway", "", format!("server called abrupt_shutdown({}); client connection result: {:?}", code, e), step));
             }
         }
